@@ -36,6 +36,9 @@ var c02Corpus = []string{
 	`function f(){let a=1,b=2;let o={a,b,c:a};let{a:x,b:y,c}=o;R(1,x,y,c)}f();`,
 	`function f(){function e(){return 1}function t(){return e()+1}{function n(){return t()}R(1,n())}}f();`,
 	`function f(a=b){let b=1;R(1,a,b)}f();function g(a=b){var b=2;R(2,a,b)}g();`,
+	// fixed findings (must pass): K-C02-3 class static block (1b16362)
+	`function f(){let z=1;class A{static{let e=2;R(1,z,e)}}}f();`,
+	`function t(p1){class C{static{let e=R(1,1);R(2,e,p1)}}}t(5);`,
 }
 
 // c02TriggerProgram: programs under the narrow triggers of the open known findings.
@@ -56,7 +59,7 @@ func c02TriggerProgram(r *h.RNG, i int) string {
 		return fmt.Sprintf("if(R(1,0)){throw 1}else{let G=3;R(2,G)}R(3,G);")
 	case 2: // K-C02-2: `with` function below a renamed function
 		return fmt.Sprintf("function g(){let %s=1;function f(o){let e=2;with(o){return R(1,%s,e)}}return f}g()({});", y, y)
-	case 3: // K-C02-3: class static block is never renamed
+	case 3: // formerly K-C02-3 (fixed by 1b16362): must pass now
 		return fmt.Sprintf("function f(){let %s=1;class A{static{let e=2;R(1,%s,e)}}}f();", y, y)
 	default: // K-C02-4: top-level `with`, block-scoped variable renamed
 		return fmt.Sprintf("{let %s=1;with({%s:5}){R(1,%s)}}", y, y, y)
